@@ -121,7 +121,9 @@ Inductive query_msg :=
 | QBatches (start_after : option N) (limit : option N) (status : option bstatus)
 | QBatchesByIds (ids : list N) | QPendingBatch | QUnstakeRequests (user : string)
 | QIbcQueue (start_after : option N) (limit : option N)
-| QIbcReplyQueue (start_after : option N) (limit : option N).
+| QIbcReplyQueue (start_after : option N) (limit : option N)
+| QAllRequests (start_after : option N) (limit : option N)       (* AllUnstakeRequests *)
+| QAllRequestsV2 (start_after : option N) (limit : option N).    (* AllUnstakeRequestsV2: the same rows as tuples *)
 
 Record batch_response := {
   br_id : N; br_total : N; br_expected : N; br_received : N; br_count : N; br_time_ns : N; br_status : bstatus }.
@@ -216,6 +218,33 @@ Definition add_to_request (b : N) (u : string) (a : N) (rs : list request) : lis
   map (fun r => if (r_batch r =? b) && String.eqb (r_user r) u
                 then {| r_batch := r_batch r; r_user := r_user r; r_amount := r_amount r + a |} else r) rs.
 Definition batch_has_request (b : N) (rs : list request) : bool := existsb (fun r => r_batch r =? b) rs.
+
+(* The by-user index (UniqueIndex keyed (user, batch id)): storage keys are the 2-byte length of the user, the user's
+   bytes, then the batch id big-endian, and a range over the index walks them in byte order -- i.e. by
+   (length of user, user bytes, batch id).  AllUnstakeRequests{,V2} start after the key ("", start_after). *)
+Definition req_index_le (a b : request) : bool :=
+  let la := slen (r_user a) in
+  let lb := slen (r_user b) in
+  if la <? lb then true
+  else if lb <? la then false
+  else match String.compare (r_user a) (r_user b) with
+       | Lt => true
+       | Gt => false
+       | Eq => r_batch a <=? r_batch b
+       end.
+Fixpoint rinsert (r : request) (l : list request) : list request :=
+  match l with
+  | [] => [r]
+  | x :: t => if req_index_le r x then r :: l else x :: rinsert r t
+  end.
+Definition by_user_index (l : list request) : list request := fold_right rinsert [] l.
+Definition after_index_cursor (c : option N) (l : list request) : list request :=
+  match c with
+  | None => l
+  | Some k => filter (fun r => negb ((slen (r_user r) =? 0) && (r_batch r <=? k))) l
+  end.
+Definition all_requests (rs : list request) (start_after limit : option N) : list request :=
+  take_n (opt_default u32_max limit) (after_index_cursor start_after (by_user_index rs)).
 
 Section Model.
   Variable be : backend.
@@ -671,5 +700,6 @@ Section Model.
     | QUnstakeRequests u => Ok (RRequests (filter (fun r => String.eqb (r_user r) u) (requests s)))
     | QIbcQueue sa lim => Ok (RIbcQueue (paginate (inflight s) sa lim (fun _ => true)))
     | QIbcReplyQueue sa lim => Ok (RReplyQueue (paginate (waitq s) sa lim (fun _ => true)))
+    | QAllRequests sa lim | QAllRequestsV2 sa lim => Ok (RRequests (all_requests (requests s) sa lim))
     end.
 End Model.
